@@ -23,6 +23,11 @@ def main(argv):
     replay = argv[6] if len(argv) > 6 else None
     seed, shard, nshards = int(seed), int(shard), int(nshards)
     faulthandler.enable()
+    try:    # die with the runner (PR_SET_PDEATHSIG): a stopped check leaves no orphaned shards behind
+        import ctypes
+        ctypes.CDLL('libc.so.6', use_errno=True).prctl(1, signal.SIGKILL)
+    except Exception:
+        pass
     warnings.simplefilter('ignore')
     np.seterr(all='ignore')
     mod = importlib.import_module('vf.props.' + prop.lower())
